@@ -1,4 +1,5 @@
 from ..registry import Harness as H, Obligation as O, Property
+from .. import syntactic
 
 F = "process.rs"
 hs = []
@@ -50,6 +51,7 @@ PROP = Property(
           "process::EnvPair::clone_into"], "<= 2 args, 1 env pair, strings <= 2 bytes"),
     ],
     harnesses=hs,
+    pre_checks=[syntactic.process_gate_order],
     assumptions=[
         "strings are handed to the builder as ArenaString views over harness-owned buffers (ArenaString::from_raw_parts), concrete lengths, symbolic ASCII bytes",
         "that std::process::Command passes spec.args/env/cwd verbatim to the OS without a shell is std's contract and is assumed (run_host_process itself is not encodable: threads/processes)",
